@@ -45,7 +45,7 @@ def bounds(tier):
 
 def goals(tier):
     return ["parent-before-child", "child-before-parent", "generic-entry-before-typed-part", "define-after-parent-primed",
-            "same-name-class", "accepting-and-rejecting-answers", "look-alike-record-typed-first"]
+            "same-name-class", "accepting-and-rejecting-answers", "look-alike-record-typed-first", "live-primer-on-the-same-records"]
 
 
 # ---------------------------------------------------------------------------------------------
@@ -225,6 +225,11 @@ def histories_for(b, tier):
             hs.append([("define", a), ("validate", a)])
         else:
             hs.append([("validate", a)])
+    # live primers: another class of the same kit (ancestors included) types the query's own witness records and stays referenced
+    fam_b = family(b)
+    for a in names:
+        if a != b and not a.startswith("dyn-") and family(a) == fam_b:
+            hs.append([("type-witnesses-and-keep", a)])
     # look-alike priming: a class with the same cutter and kind types a long record (clean / with an extra site) first
     try:
         cb = gen.class_by_name(b)
@@ -249,6 +254,9 @@ def histories_for(b, tier):
     return hs
 
 
+_KEEP = []
+
+
 def _history_body(hist, b):
     """executed in a forked child: nothing any earlier history did can be visible here"""
     dyn = {}
@@ -258,6 +266,19 @@ def _history_body(hist, b):
             dyn[x] = define(x)
         elif op == "validate":
             validate(resolve(x, dyn), x)
+        elif op == "type-witnesses-and-keep":
+            # class x types every witness record of the queried class (same ids, same sequences) and the entities STAY ALIVE
+            kc = resolve(x, dyn)
+            qc = resolve(b, dyn) if not b.startswith("dyn-") or b in dyn else None
+            if qc is not None:
+                for wid, s in witnesses(b, qc):
+                    e = kc(CircularRecord(Seq(s), id="w"))
+                    try:
+                        if e.is_valid():
+                            e.overhang_start()
+                    except Exception:
+                        pass
+                    _KEEP.append(e)
         else:
             validate(resolve(x, dyn), x, which="long" if op == "validate-long" else "long-illegal")
         states.append(cache_state())
@@ -326,7 +347,9 @@ def run_unit(unit, st, tier):
             st.scenario("history-len-%d" % len(hist), None, calls=len(hist) + len(got))
             if any(op.startswith("validate-long") for op, x in hist):
                 st.goal("look-alike-record-typed-first")
-            others = [x for op, x in hist if op.startswith("validate") and (x != b or op != "validate")]
+            if any(op == "type-witnesses-and-keep" for op, x in hist):
+                st.goal("live-primer-on-the-same-records")
+            others = [x for op, x in hist if (op.startswith("validate") or op == "type-witnesses-and-keep") and (x != b or op != "validate")]
             if others:
                 st.nontrivial += 1
                 a = others[0]
